@@ -14,6 +14,7 @@
 From Coq Require Import List ZArith Bool String.
 Require Import MTX.Lib.PathClean MTX.Model.C34_Descriptors MTX.Model.C35_PreAuth MTX.Proofs.C35_PreAuth.
 Require Import MTX.Model.C35_SessionConc MTX.Proofs.C35_SessionConc MTX.Proofs.C35_SessionRun.
+Require MTXGen.C35_SessionPaths.
 Import ListNotations.
 Local Open Scope Z_scope.
 
@@ -250,6 +251,24 @@ Theorem C35_session_handlers_well_formed : forall c s,
   wf false abs0 (prog c AsFound s) = true /\ (forall alt, alt_of c AsFound s = Some alt -> wf false abs0 alt = true).
 Proof. intros c s. split. exact (prog_wf c s). exact (alt_wf c s). Qed.
 Print Assumptions C35_session_handlers_well_formed.
+
+(* The same for the code itself: tools/gen/sessionpaths lists every syntactic path through every per-stream method of
+   *session in internal/servers/moq/session.go as a sequence of micro-operations (coq/gen/C35_SessionPaths.v,
+   regenerated on every run). All of them obey the discipline ... *)
+Theorem C35_session_source_paths_well_formed :
+  map fst (filter (fun p => negb (wf false abs0 (snd p))) MTXGen.C35_SessionPaths.session_paths) = [].
+Proof. vm_compute. reflexivity. Qed.
+Print Assumptions C35_session_source_paths_well_formed.
+
+(* ... hence any number of goroutines, each running any of these paths (`picks`: positions in the table), under any
+   schedule, never reaches a panic, a fatal unlock or an unprotected access *)
+Theorem C35_session_source_paths_no_panic : forall c name query (picks : list nat) ls,
+  exists g ts,
+    run c (RRun (sess0 name query)
+                (map thread_of (map (fun k => snd (nth k MTXGen.C35_SessionPaths.session_paths (EmptyString, []))) picks))) ls
+    = RRun g ts /\ Inv g ts.
+Proof. exact (table_no_panic _ C35_session_source_paths_well_formed). Qed.
+Print Assumptions C35_session_source_paths_no_panic.
 
 (* whoever holds s.mutex can run its next statement at once: a client cannot park a goroutine inside a critical
    section (apiItem, and with it the API's session list, would hang) *)
